@@ -59,7 +59,11 @@ func TracerouteSerial(ctx context.Context, t TracerouteDriver, p TracerouteSeria
 		if probe != nil {
 			log.Tracef("found probe %+v", probe)
 			// if we found the destination, no need to keep going
-			results[probe.TTL] = probe
+			// packets can get delivered twice or late - keep the first response for a TTL, except that
+			// a destination response is never covered up (same rule as TracerouteParallel)
+			if previous := results[probe.TTL]; previous == nil || (!previous.IsDest && probe.IsDest) {
+				results[probe.TTL] = probe
+			}
 			if probe.IsDest {
 				break
 			}
